@@ -364,6 +364,81 @@ func line(s *c01.Spec, kind string, c, ad, p0 []byte) string {
 	return fmt.Sprintf("C02|%s|%s|%s|%s|%s", s, kind, hx.H(c), hx.H(ad), hx.H(p0))
 }
 
+// ksLegacyCases: keysets containing a key type that has ONLY a key manager — the KMS envelope
+// AEAD key (KmsEnvelopeAeadKey, key-encryption AEAD served by the harness KMS client) — which
+// aead.New wraps in fullAEADPrimitiveAdapter: that adapter strips len(prefix) bytes WITHOUT
+// comparing them and with an unchecked slice expression, so the prefix-map lookup of
+// wrappedAead.Decrypt is the only prefix check and the only length guard.  The envelope key has a
+// TINK / CRUNCHY / LEGACY prefix and is the primary or a non-primary key; presented are: the valid
+// ciphertext, EVERY single-bit flip of the five prefix bytes, another key's prefix, a garbage
+// prefix, the prefix stripped, and ALL lengths 0..5 (cuts and random bytes) — never a panic, never
+// a plaintext.  Model: AeadKeyset.ks_dec with pr_legacy = true (C02_keyset_decrypt_total).
+func ksLegacyCases(r *hx.Rng) []string {
+	var out []string
+	plain := func(variant string, id uint32) *c01.Spec {
+		k := c01.RandSpec(r)
+		for k.Scheme == "env" || k.Scheme == "xaes" {
+			k = c01.RandSpec(r)
+		}
+		k.Route, k.Variant, k.ID = "H", variant, id
+		return k
+	}
+	for _, v := range []string{"T", "C", "L"} {
+		for _, envPrimary := range []bool{true, false} {
+			id := uint32(r.U64()) | 1
+			kek := plain(v, id)
+			dek := hx.PickS(r, c01.DEKNames)
+			e := &c01.Spec{Scheme: "env", Route: "E", Variant: v, ID: id, Key: kek.Key, DEK: dek, KEK: kek,
+				Params: dek + "~" + kek.Scheme + "~" + kek.Route + "~" + kek.Params}
+			if r.Chance(30) {
+				e = c01.PadEnv(kek, dek, c01.PadMin(kek, dek)+r.Intn(50))
+			}
+			o1 := plain(hx.PickS(r, []string{"T", "C"}), id^(1<<uint(r.Intn(32))))
+			if o1.ID == 0 {
+				o1.ID = 2
+			}
+			ks := &c01.Spec{Scheme: "ks", Route: "H", Variant: "R", Params: "-", Keys: []*c01.Spec{e, o1}, Enabled: []bool{true, true}}
+			if r.Chance(50) {
+				ks.Keys = append(ks.Keys, plain("R", 0x7fffffff&uint32(r.U64())|4))
+				ks.Enabled = append(ks.Enabled, true)
+			}
+			if r.Chance(50) {
+				ks.Keys[0], ks.Keys[1] = ks.Keys[1], ks.Keys[0]
+			}
+			ks.ID = o1.ID
+			if envPrimary {
+				ks.ID = e.ID
+			}
+			pt, ad := r.Bytes(c01.PickLen(r, 40)), r.Bytes(c01.PickLen(r, 20))
+			raw, ok := e.Independent(r.Bytes(e.IVLen()), pt, ad)
+			if !ok {
+				continue
+			}
+			pre := e.Prefix()
+			c0 := append(clone(pre), raw...)
+			out = append(out, line(ks, "valid", c0, ad, pt))
+			pt1 := r.Bytes(c01.PickLen(r, 40))
+			out = append(out, line(ks, "valid", validCiphertext(o1, r.Bytes(o1.IVLen()), pt1, ad), ad, pt1))
+			for b := 0; b < 40; b++ {
+				out = append(out, line(ks, "pfx.flip."+strconv.Itoa(b), flip(c0, b), ad, nil))
+			}
+			out = append(out, line(ks, "pfx.swap", append(clone(o1.Prefix()), raw...), ad, nil))
+			g := r.Bytes(5)
+			for bytes.Equal(g, pre) {
+				g = r.Bytes(5)
+			}
+			out = append(out, line(ks, "pfx.garbage", append(g, raw...), ad, nil))
+			out = append(out, line(ks, "pfx.strip", clone(raw), ad, nil))
+			for n := 0; n <= 5; n++ {
+				out = append(out, line(ks, "short."+strconv.Itoa(n), clone(c0[:n]), ad, nil))
+				out = append(out, line(ks, "short."+strconv.Itoa(n), r.Bytes(n), ad, nil))
+				out = append(out, line(ks, "short."+strconv.Itoa(n), clone(o1.Prefix()[:n]), ad, nil))
+			}
+		}
+	}
+	return out
+}
+
 func gen(r *hx.Rng, n int, tier string) []string {
 	var out []string
 	// ciphertexts above the size limit of x/crypto's Open, which panics there: Decrypt must
@@ -441,6 +516,7 @@ func gen(r *hx.Rng, n int, tier string) []string {
 			}
 		}
 	}
+	out = append(out, ksLegacyCases(r)...)
 	// keyset level (aead.New over several keys, prefix map + RAW fallback): ciphertexts of
 	// every key of the keyset, mutated prefixes, ciphertexts of disabled keys
 	nks := n / 100
